@@ -955,6 +955,29 @@ pub fn worker_c14(ctx: &WorkerCtx) -> WorkerOut {
     out
 }
 
+/// Many pending aggregate delays coming due at once (no machines, a packets-per-second limit of 1, a network delay
+/// far above the trace's span, one last packet long after): run on a 2 MiB stack.
+pub fn c19_deep_systems(q: bool) -> Vec<SimSys> {
+    let mut v = vec![];
+    let ns: &[usize] = if q { &[12_000] } else { &[3_000, 12_000, 60_000] };
+    for &n in ns {
+        for client in [true, false] {
+            let delay = 1_000_000_000_000u64;
+            let off = if client { 0 } else { delay };
+            let mut trace: Vec<Pkt> = (0..n as u64).map(|i| (off + i * 2_000_000, client)).collect();
+            trace.push((off + 100_000 * 1_000_000_000, client));
+            let mut s = SimSys::new(trace, delay);
+            s.pps = Some(1);
+            s.max_iter = 10 * n + 100;
+            s.cont = false;
+            s.seed = 1;
+            s.small_stack = true;
+            v.push(s);
+        }
+    }
+    v
+}
+
 pub fn worker_c19(ctx: &WorkerCtx) -> WorkerOut {
     let q = ctx.quick();
     let mut sp = space(q, 3);
@@ -1034,6 +1057,16 @@ pub fn worker_c19(ctx: &WorkerCtx) -> WorkerOut {
         k.seed = [0u64, 1, u64::MAX, 7][(i / 7) % 4];
         k.style = (i / 11 % 4) as u8;
         jobs.push(k);
+        if i % 211 == 0 {
+            // bounds far above anything the run can reach are bounds like any other (not allocation sizes)
+            for big in [usize::MAX, 1usize << 48, 1usize << 33] {
+                let mut u = j.clone();
+                u.max_len = big;
+                u.max_iter = 120;
+                u.cont = false;
+                jobs.push(u);
+            }
+        }
         if i % 4 == 0 {
             // the plain unfiltered run with an explicit pps limit
             let mut u = j.clone();
@@ -1042,9 +1075,12 @@ pub fn worker_c19(ctx: &WorkerCtx) -> WorkerOut {
             jobs.push(u);
         }
     }
-    let b = bounds(&sp, jobs.len(), &delays);
-    let res = run_jobs("C19", jobs.len(), &|i| Some(sp.build(&jobs[i])), &judge_c19, ctx);
-    finish("C19", res, "one job = one closed system x packets-per-second limit {none,1,2,10,1000,2^32-1,2^32,usize::MAX} x max_trace_length {0,1,5} x max_sim_iterations {1,7,120} x both continue settings x all four filter combinations x seeds {0, 1, 7, u64::MAX} (client seed s, server seed s+1 wrapping); oracle: no panic, two runs on clones of the same queue identical, filtered outputs equal the projection (prefix under a length cap) of the unfiltered trace, stop bounds respected, time ordered. distinct_nontrivial = distinct output traces containing padding, blocking or timers", b, 1000, ctx, vec![ASSUME.into()])
+    let deep = c19_deep_systems(q);
+    let nj = jobs.len();
+    let mut b = bounds(&sp, nj + deep.len(), &delays);
+    b["systems_with_thousands_of_pending_aggregate_delays_on_a_2MiB_stack"] = json!(deep.len());
+    let res = run_jobs("C19", nj + deep.len(), &|i| if i < nj { Some(sp.build(&jobs[i])) } else { Some(deep[i - nj].clone()) }, &judge_c19, ctx);
+    finish("C19", res, "one job = one closed system x packets-per-second limit {none,1,2,10,1000,2^32-1,2^32,usize::MAX} x max_trace_length {0,1,5, and 2^33, 2^48, usize::MAX on every 211th system} x max_sim_iterations {1,7,120} x both continue settings x all four filter combinations x seeds {0, 1, 7, u64::MAX} (client seed s, server seed s+1 wrapping); oracle: no panic, two runs on clones of the same queue identical, filtered outputs equal the projection (prefix under a length cap) of the unfiltered trace, stop bounds respected, time ordered. distinct_nontrivial = distinct output traces containing padding, blocking or timers", b, 1000, ctx, vec![ASSUME.into()])
 }
 
 pub fn replay(v: &Value) -> Result<Option<String>, String> {
